@@ -167,6 +167,37 @@ fn gen_net(r: &mut rand::rngs::StdRng, depth: u32) -> Value {
     }
 }
 
+/// largest magnitude a rate chain can produce from a state change of magnitude x (the specification computes in 32-bit
+/// milli-cost: scenarios whose charge could exceed 1e6 cost units are not generated)
+fn rate_bound(rate: &Value, x: f64) -> f64 {
+    match rate[0].as_str().unwrap() {
+        "zero" => 0.0,
+        "raw" => x,
+        "factor" => x * rate[1].as_f64().unwrap().abs(),
+        "offset" => x + rate[1].as_f64().unwrap().abs(),
+        _ => rate[1].as_array().unwrap().iter().fold(x, |acc, r| rate_bound(r, acc)),
+    }
+}
+fn net_bound(net: &Value) -> f64 {
+    match net[0].as_str().unwrap() {
+        "zero" => 0.0,
+        "combined" => net[1].as_array().unwrap().iter().map(net_bound).sum(),
+        _ => net[1].as_f64().unwrap().abs(),
+    }
+}
+fn charge_bound(s: &Value) -> f64 {
+    let per: Vec<f64> = s["F"]
+        .as_array()
+        .unwrap()
+        .iter()
+        .map(|f| {
+            let x = f["da"].as_f64().unwrap().abs() + f["dt"].as_f64().unwrap().abs();
+            f["w"].as_f64().unwrap().abs() * (rate_bound(&f["rate"], x) + net_bound(&f["net"])) + 1.0
+        })
+        .collect();
+    if s["agg"] == "sum" { per.iter().sum() } else { per.iter().product() }
+}
+
 pub fn main(args: &[String]) -> i32 {
     let mut out = Out::new();
     if has_flag(args, "--scenarios") {
@@ -199,6 +230,9 @@ pub fn main(args: &[String]) -> i32 {
             }
             let s = json!({"agg": if r.gen_bool(0.7) {"sum"} else {"mul"}, "prev": r.gen_bool(0.6),
                            "dir": if r.gen_bool(0.6) {"fwd"} else {"rev"}, "F": f});
+            if charge_bound(&s) > 1.0e6 {
+                continue;
+            }
             guarded(&mut out, |o| run_scenario(o, &s));
         }
     }
